@@ -53,7 +53,7 @@ func (g *Gen) Token() string {
 	return fmt.Sprintf("zq%dx%s", g.serial, g.letters(g.rng(5, 7)))
 }
 
-var dressings = []string{"ascii", "ascii", "ascii", "space", "unicode", "astral", "dollar", "digits", "escape", "html", "long", "empty", "jsonish", "b64ish", "upper"}
+var dressings = []string{"ascii", "ascii", "ascii", "space", "unicode", "astral", "dollar", "digits", "escape", "html", "long", "empty", "jsonish", "b64ish", "upper", "pad"}
 
 // SensString returns the contents of a sensitive ordinary string.
 func (g *Gen) SensString() string {
@@ -101,12 +101,21 @@ func (g *Gen) Dress(d string) string {
 		return base64.StdEncoding.EncodeToString([]byte(t + t))
 	case "upper":
 		return strings.ToUpper(t)
+	case "pad":
+		// leading / trailing white space must survive encryption round trips
+		return g.pick(" ", "\t", "", "\n", "\u00a0") + t + g.pick(" ", "  ", "\n", "\t", "\r\n")
 	}
 	return t
 }
 
 func (g *Gen) Email() string {
 	g.serial++
+	if g.R.Intn(4) == 0 {
+		// RFC 5322 dot-atom local parts beyond [a-z0-9]: still e-mail-shaped
+		// (DESIGN §4 C02); the domain stays dotted with an alphabetic TLD.
+		loc := g.pick("o'brien", "first/last=x", "a+tag", "x_y-z", "n!ce", "50%off", "a.b.c", "{curly}", "who?", "c#sharp", "tilde~", "p|pe", "`tick", "car^et", "amp&ersand", "st*r", "do$$ar")
+		return fmt.Sprintf("%s%d@%s-%s.%s.%s", loc, g.serial, g.letters(g.rng(1, 5)), g.letters(2), g.letters(g.rng(2, 6)), g.pick("com", "org", "io", "museum"))
+	}
 	return fmt.Sprintf("u%d%s@%s.%s", g.serial, g.letters(g.rng(1, 6)), g.letters(g.rng(1, 10)), g.pick("com", "org", "io"))
 }
 
@@ -576,13 +585,16 @@ func (g *Gen) Stage(d int, top bool) *Node {
 		}
 		return ObjN("$facet", f)
 	case 13:
-		l := ObjN("from", g.nsColl(), "let", ObjN("v1", g.Expr(0), "v2", g.Lit("lookup-let")), "pipeline", g.Pipeline(d-1, false), "as", FreeS("joined"))
+		l := ObjN("from", g.nsFrom(), "let", ObjN("v1", g.Expr(0), "v2", g.Lit("lookup-let")), "pipeline", g.Pipeline(d-1, false), "as", FreeS("joined"))
 		return ObjN("$lookup", l)
 	case 14:
-		if g.chance(0.5) {
+		switch g.R.Intn(5) {
+		case 0, 1:
 			return ObjN("$unionWith", ObjN("coll", g.nsColl(), "pipeline", g.Pipeline(d-1, false)))
+		case 2:
+			return ObjN("$unionWith", g.nsColl())
 		}
-		return ObjN("$lookup", ObjN("from", g.nsColl(), "localField", FreeS(g.Field()), "foreignField", FreeS(g.Field()), "as", FreeS("joined")))
+		return ObjN("$lookup", ObjN("from", g.nsFrom(), "localField", FreeS(g.Field()), "foreignField", FreeS(g.Field()), "as", FreeS("joined")))
 	case 15:
 		return ObjN("$graphLookup", ObjN("from", g.nsColl(), "startWith", g.exprDoc(d-1), "connectFromField", FreeS(g.Field()), "connectToField", FreeS(g.Field()),
 			"as", FreeS("chain"), "maxDepth", FreeI(3), "depthField", FreeS("depth"), "restrictSearchWithMatch", g.Query(d-1)))
@@ -676,6 +688,31 @@ func (g *Gen) nsDB() *Node {
 	return StrN(g.pick("other_db", "db_"+g.letters(4))).With(&Tag{Role: NsDB, Slot: "stage"})
 }
 
+// nsDoc is the document form of a namespace argument: {db, coll} in either
+// key order (documents are unordered for the server), for $out optionally
+// with the timeseries member.
+func (g *Gen) nsDoc(out bool) *Node {
+	var o *Node
+	if g.chance(0.5) {
+		o = ObjN("db", g.nsDB(), "coll", g.nsColl())
+	} else {
+		o = ObjN("coll", g.nsColl(), "db", g.nsDB())
+	}
+	if out && g.chance(0.4) {
+		o.Set("timeseries", free(ObjN("timeField", StrN("ts"), "metaField", StrN("meta"), "granularity", StrN("hours"))))
+	}
+	return o
+}
+
+// nsFrom is the value of $lookup.from / $graphLookup.from: a collection name
+// or (cross-database lookups) a {db, coll} document.
+func (g *Gen) nsFrom() *Node {
+	if g.chance(0.2) {
+		return g.nsDoc(false)
+	}
+	return g.nsColl()
+}
+
 func (g *Gen) mergeStage(d int) *Node {
 	var into *Node
 	switch g.R.Intn(3) {
@@ -684,7 +721,7 @@ func (g *Gen) mergeStage(d int) *Node {
 	case 1:
 		into = g.nsColl()
 	case 2:
-		into = ObjN("db", g.nsDB(), "coll", g.nsColl())
+		into = g.nsDoc(false)
 	}
 	m := ObjN("into", into, "on", FreeS("_id"))
 	switch g.R.Intn(3) {
@@ -702,7 +739,7 @@ func (g *Gen) outStage() *Node {
 	if g.chance(0.5) {
 		return ObjN("$out", g.nsColl())
 	}
-	return ObjN("$out", ObjN("db", g.nsDB(), "coll", g.nsColl()))
+	return ObjN("$out", g.nsDoc(true))
 }
 
 // Pipeline generates 1–4 stages; with top=true one of them may be an Atlas
@@ -737,7 +774,7 @@ func (g *Gen) SearchOp(d int) *Node {
 	case 4:
 		return ObjN(g.pick("wildcard", "regex"), ObjN("query", sens(StrN(g.SensString()+"*"), "str", "search-wildcard"), "path", g.path(), "allowAnalyzedField", FreeB(true)))
 	case 5:
-		return ObjN("equals", ObjN("path", g.path(), "value", g.LitClass(g.pick("str", "num", "bool", "oid", "date", "email"), "search-equals")))
+		return ObjN("equals", ObjN("path", g.path(), "value", g.LitClass(g.pick("str", "num", "bool", "oid", "date", "email", "b64", "uuid"), "search-equals")))
 	case 6:
 		return ObjN("in", ObjN("path", g.path(), "value", g.litArray("search-in", 0)))
 	case 7:
